@@ -926,7 +926,11 @@ func evalShape(sh shape, aspect int) kit.Outcome {
 			return out
 		}
 		if len(o.elems) != len(e.chain) {
-			return fail(fmt.Sprintf("chain-length want=%d got=%d | %s", len(e.chain), len(o.elems), defectContext(p, e)))
+			rel := "longer than expected (finished panics still listed)"
+			if len(o.elems) < len(e.chain) {
+				rel = "shorter than expected"
+			}
+			return fail("chain-length " + rel + " | " + defectContext(p, e))
 		}
 		for i, r := range e.chain {
 			if ok, why := messageOK(sh, r, o.elems[i]); !ok {
@@ -1021,11 +1025,12 @@ func deferLists(n int) [][]int {
 	return out
 }
 
-// frameConfigs returns every assignment of defer lists to nf frames.
-func frameConfigs(nf, maxLen int) [][][]int {
-	lists := deferLists(maxLen)
+// frameConfigs returns every assignment of defer lists to the frames, frame f
+// having lists of length up to maxLens[f].
+func frameConfigs(maxLens ...int) [][][]int {
 	out := [][][]int{{}}
-	for f := 0; f < nf; f++ {
+	for _, ml := range maxLens {
+		lists := deferLists(ml)
 		var cur [][][]int
 		for _, c := range out {
 			for _, l := range lists {
@@ -1033,6 +1038,22 @@ func frameConfigs(nf, maxLen int) [][][]int {
 			}
 		}
 		out = cur
+	}
+	return out
+}
+
+// union concatenates configuration lists, dropping duplicates.
+func union(cs ...[][][]int) [][][]int {
+	seen := map[string]bool{}
+	var out [][][]int
+	for _, c := range cs {
+		for _, x := range c {
+			k := fmt.Sprint(x)
+			if !seen[k] {
+				seen[k] = true
+				out = append(out, x)
+			}
+		}
 	}
 	return out
 }
@@ -1046,21 +1067,22 @@ type family struct {
 func families(tier string) []family {
 	var fs []family
 	if tier == "thorough" {
+		two := union(frameConfigs(2, 1), frameConfigs(1, 2))
 		fs = []family{
-			{"program.frames1", lProgram, frameConfigs(1, 3)},
-			{"program.frames2", lProgram, frameConfigs(2, 2)},
-			{"program.frames3", lProgram, frameConfigs(3, 1)},
-			{"template.frames1", lTemplate, frameConfigs(1, 3)},
-			{"template.frames2", lTemplate, frameConfigs(2, 2)},
-			{"template.import.frames2", lTemplateImport, frameConfigs(2, 1)},
+			{"program.frames1", lProgram, frameConfigs(3)},
+			{"program.frames2", lProgram, two},
+			{"program.frames3", lProgram, frameConfigs(1, 1, 1)},
+			{"template.frames1", lTemplate, frameConfigs(3)},
+			{"template.frames2", lTemplate, two},
+			{"template.import.frames2", lTemplateImport, frameConfigs(1, 1)},
 		}
 	} else {
 		fs = []family{
-			{"program.frames1", lProgram, frameConfigs(1, 2)},
-			{"program.frames2", lProgram, frameConfigs(2, 1)},
-			{"template.frames1", lTemplate, frameConfigs(1, 2)},
-			{"template.frames2", lTemplate, frameConfigs(2, 1)},
-			{"template.import.frames2", lTemplateImport, frameConfigs(2, 1)},
+			{"program.frames1", lProgram, frameConfigs(2)},
+			{"program.frames2", lProgram, frameConfigs(1, 1)},
+			{"template.frames1", lTemplate, frameConfigs(2)},
+			{"template.frames2", lTemplate, frameConfigs(1, 1)},
+			{"template.import.frames2", lTemplateImport, frameConfigs(1, 1)},
 		}
 	}
 	return fs
